@@ -35,7 +35,8 @@ enum Cat
 {
     LVALUE = 0,
     CONST_LVALUE,
-    RVALUE
+    RVALUE,
+    CONST_RVALUE // a const-qualified temporary, e.g. the result of a function returning const T
 };
 enum What
 {
@@ -54,6 +55,7 @@ static const char* kind_name(int k)
 struct Case
 {
     int kind = 0, cat = 0, what = 0;
+    int style = 0;     // 0 range-for, 1 explicit iterator advanced by post-increment
     int extra_cap = 0; // fixed_vector: capacity = length + extra_cap
     std::vector<int> vals; // distinct element values, length = container length
 
@@ -63,6 +65,7 @@ struct Case
         a("kind", kind);
         a("cat", cat);
         a("what", what);
+        a("style", style);
         a("extra_cap", extra_cap);
         a("vals", vals);
     }
@@ -77,7 +80,8 @@ std::string describe(const Case& c)
 {
     std::ostringstream o;
     o << (c.what == ENUMERATE ? "enumerate" : "reverse") << "("
-      << (c.cat == LVALUE ? "lvalue " : c.cat == CONST_LVALUE ? "const " : "temporary ")
+      << (c.cat == LVALUE ? "lvalue " : c.cat == CONST_LVALUE ? "const " : c.cat == RVALUE ? "temporary " : "const temporary ")
+      << (c.style ? "[it++ loop] " : "")
       << kind_name(c.kind) << " of length " << c.vals.size();
     if (c.kind == FIXED_VECTOR)
         o << " capacity " << c.vals.size() + static_cast<std::size_t>(c.extra_cap);
@@ -104,8 +108,9 @@ Case generate(vf::Src& src, const std::string& mode)
     Case c;
     bool ex = mode == "ex";
     c.kind = src.irange(0, KIND_COUNT - 1);
-    c.cat = src.irange(0, 2);
+    c.cat = src.irange(0, 3);
     c.what = src.irange(0, 1);
+    c.style = src.irange(0, 1);
     int n;
     if (c.kind == STD_ARRAY)
         n = std::vector<int>{ 0, 1, 2, 3, 7 }[src.index(5)];
@@ -115,8 +120,8 @@ Case generate(vf::Src& src, const std::string& mode)
         n = src.irange(0, 4);
     else
         n = src.irange(0, 8);
-    if (c.kind == BUILTIN_ARRAY && c.cat == RVALUE)
-        c.cat = LVALUE; // there are no array temporaries
+    if (c.kind == BUILTIN_ARRAY && c.cat >= RVALUE)
+        c.cat = c.cat == RVALUE ? LVALUE : CONST_LVALUE; // there are no array temporaries
     if (c.kind == INIT_LIST)
         c.cat = RVALUE; // a braced list is always a temporary
     if (c.kind == FIXED_VECTOR)
@@ -313,18 +318,28 @@ static std::string seq(const std::vector<long>& v)
     return r + "]";
 }
 
-// enumerate over something usable in a range-for (adaptor already built)
-template <class Range>
-static void walk_enumerate(Range&& range, const Case& c, Result& r, const char* how,
-                           const std::vector<const void*>* addrs)
+// Visitors: fed once per visited element by a loop written at the call site. The loops
+// are genuine range-for statements (or their exact expansion with `auto&&`) over the
+// adaptor expression, so that a temporary container lives exactly as long as the language
+// gives it - passing the adaptor to a helper function would extend the temporary's life to
+// the end of the call and hide dangling references.
+struct EnumVisitor
 {
+    const Case& c;
+    Result& r;
+    const char* how;
+    const std::vector<const void*>* addrs;
     std::vector<long> got;
     std::size_t i = 0;
-    const std::size_t n = c.vals.size();
-    for (auto x : range)
+    EnumVisitor(const Case& c_, Result& r_, const char* how_, const std::vector<const void*>* a)
+    : c(c_), r(r_), how(how_), addrs(a)
     {
-        if (i > n)
-            break; // runaway
+    }
+    template <class X>
+    bool operator()(X&& x)
+    {
+        if (i > c.vals.size())
+            return false; // runaway
         if (x.index() != i)
             r.fail(std::string("enumerate ") + how + ": visit " + std::to_string(i) +
                    " carries index " + std::to_string(x.index()));
@@ -333,33 +348,90 @@ static void walk_enumerate(Range&& range, const Case& c, Result& r, const char* 
             r.fail(std::string("enumerate ") + how + ": value of visit " + std::to_string(i) +
                    " does not alias the container element");
         ++i;
+        return true;
     }
-    if (got != expected(c, false))
-        r.fail(std::string("enumerate ") + how + " visits " + seq(got) + ", container holds " +
-               seq(expected(c, false)));
-}
+    void finish()
+    {
+        if (got != expected(c, false))
+            r.fail(std::string("enumerate ") + how + " visits " + seq(got) + ", container holds " +
+                   seq(expected(c, false)));
+    }
+};
 
-template <class Range>
-static void walk_reverse(Range&& range, const Case& c, Result& r, const char* how,
-                         const std::vector<const void*>* addrs)
+struct RevVisitor
 {
+    const Case& c;
+    Result& r;
+    const char* how;
+    const std::vector<const void*>* addrs;
     std::vector<long> got;
     std::size_t i = 0;
-    const std::size_t n = c.vals.size();
-    for (auto& x : range)
+    RevVisitor(const Case& c_, Result& r_, const char* how_, const std::vector<const void*>* a)
+    : c(c_), r(r_), how(how_), addrs(a)
     {
+    }
+    template <class X>
+    bool operator()(X& x)
+    {
+        const std::size_t n = c.vals.size();
         if (i > n)
-            break;
+            return false;
         got.push_back(val(x));
         if (addrs && i < addrs->size() && addr(x) != (*addrs)[n - 1 - i])
             r.fail(std::string("reverse ") + how + ": visit " + std::to_string(i) +
                    " does not alias the container element");
         ++i;
+        return true;
     }
-    if (got != expected(c, true))
-        r.fail(std::string("reverse ") + how + " visits " + seq(got) + ", expected " +
-               seq(expected(c, true)));
-}
+    void finish()
+    {
+        if (got != expected(c, true))
+            r.fail(std::string("reverse ") + how + " visits " + seq(got) + ", expected " +
+                   seq(expected(c, true)));
+    }
+};
+
+// The two iteration styles: a range-for statement, or its expansion with an explicit
+// iterator advanced by post-increment.
+#define VF_WALK_ENUM(EXPR, HOW, ADDRS)                                                             \
+    do                                                                                             \
+    {                                                                                              \
+        EnumVisitor vis(c, r, HOW, ADDRS);                                                         \
+        if (c.style == 0)                                                                          \
+        {                                                                                          \
+            for (auto x : EXPR)                                                                    \
+                if (!vis(x))                                                                       \
+                    break;                                                                         \
+        }                                                                                          \
+        else                                                                                       \
+        {                                                                                          \
+            auto&& rg = EXPR;                                                                      \
+            for (auto it = rg.begin(); it != rg.end(); it++)                                       \
+                if (!vis(*it))                                                                     \
+                    break;                                                                         \
+        }                                                                                          \
+        vis.finish();                                                                              \
+    } while (0)
+
+#define VF_WALK_REV(EXPR, HOW, ADDRS)                                                              \
+    do                                                                                             \
+    {                                                                                              \
+        RevVisitor vis(c, r, HOW, ADDRS);                                                          \
+        if (c.style == 0)                                                                          \
+        {                                                                                          \
+            for (auto& x : EXPR)                                                                   \
+                if (!vis(x))                                                                       \
+                    break;                                                                         \
+        }                                                                                          \
+        else                                                                                       \
+        {                                                                                          \
+            auto&& rg = EXPR;                                                                      \
+            for (auto it = rg.begin(); it != rg.end(); it++)                                       \
+                if (!vis(*it))                                                                     \
+                    break;                                                                         \
+        }                                                                                          \
+        vis.finish();                                                                              \
+    } while (0)
 
 template <class C>
 static std::vector<const void*> addresses(const C& cont)
@@ -379,6 +451,13 @@ static std::vector<long> contents(const C& cont)
     return v;
 }
 
+// a function returning a const-qualified value: a const temporary
+template <class C>
+static const C make_const(const Case& c)
+{
+    return Make<C>::make(c);
+}
+
 template <class C>
 static void run_container(const Case& c, Result& r)
 {
@@ -390,7 +469,7 @@ static void run_container(const Case& c, Result& r)
         auto a = addresses(cont);
         if (c.what == ENUMERATE)
         {
-            walk_enumerate(enumerate(cont), c, r, "(lvalue)", &a);
+            VF_WALK_ENUM(enumerate(cont), "(lvalue)", &a);
             // write-through
             std::vector<long> want;
             for (auto x : enumerate(cont))
@@ -405,7 +484,7 @@ static void run_container(const Case& c, Result& r)
         }
         else
         {
-            walk_reverse(reverse(cont), c, r, "(lvalue)", &a);
+            VF_WALK_REV(reverse(cont), "(lvalue)", &a);
             std::vector<long> want;
             for (auto& x : reverse(cont))
             {
@@ -424,17 +503,24 @@ static void run_container(const Case& c, Result& r)
         const C cont = Make<C>::make(c);
         auto a = addresses(cont);
         if (c.what == ENUMERATE)
-            walk_enumerate(enumerate(cont), c, r, "(const lvalue)", &a);
+            VF_WALK_ENUM(enumerate(cont), "(const lvalue)", &a);
         else
-            walk_reverse(reverse(cont), c, r, "(const lvalue)", &a);
+            VF_WALK_REV(reverse(cont), "(const lvalue)", &a);
     }
     else
     {
         // temporary: must stay alive for the whole loop (ASan reads every element)
-        if (c.what == ENUMERATE)
-            walk_enumerate(enumerate(Make<C>::make(c)), c, r, "(temporary)", nullptr);
+        if (c.cat == CONST_RVALUE)
+        {
+            if (c.what == ENUMERATE)
+                VF_WALK_ENUM(enumerate(make_const<C>(c)), "(const temporary)", nullptr);
+            else
+                VF_WALK_REV(reverse(make_const<C>(c)), "(const temporary)", nullptr);
+        }
+        else if (c.what == ENUMERATE)
+            VF_WALK_ENUM(enumerate(Make<C>::make(c)), "(temporary)", nullptr);
         else
-            walk_reverse(reverse(Make<C>::make(c)), c, r, "(temporary)", nullptr);
+            VF_WALK_REV(reverse(Make<C>::make(c)), "(temporary)", nullptr);
     }
 }
 
@@ -453,14 +539,14 @@ static void run_builtin(const Case& c, Result& r)
     {
         const int(&carr)[K] = arr;
         if (c.what == ENUMERATE)
-            walk_enumerate(enumerate(carr), c, r, "(const array)", &a);
+            VF_WALK_ENUM(enumerate(carr), "(const array)", &a);
         else
-            walk_reverse(reverse(carr), c, r, "(const array)", &a);
+            VF_WALK_REV(reverse(carr), "(const array)", &a);
         return;
     }
     if (c.what == ENUMERATE)
     {
-        walk_enumerate(enumerate(arr), c, r, "(array)", &a);
+        VF_WALK_ENUM(enumerate(arr), "(array)", &a);
         std::vector<long> want;
         for (auto x : enumerate(arr))
         {
@@ -474,7 +560,7 @@ static void run_builtin(const Case& c, Result& r)
     }
     else
     {
-        walk_reverse(reverse(arr), c, r, "(array)", &a);
+        VF_WALK_REV(reverse(arr), "(array)", &a);
         std::vector<long> want;
         for (auto& x : reverse(arr))
         {
@@ -501,19 +587,19 @@ static void run_init_list(const Case& c, Result& r)
         switch (v.size())
         {
         case 0:
-            walk_enumerate(enumerate(std::initializer_list<int>{}), c, r, "(initializer list)", nullptr);
+            VF_WALK_ENUM(enumerate(std::initializer_list<int>{}), "(initializer list)", nullptr);
             break;
         case 1:
-            walk_enumerate(enumerate({ v[0] }), c, r, "(initializer list)", nullptr);
+            VF_WALK_ENUM(enumerate({ v[0] }), "(initializer list)", nullptr);
             break;
         case 2:
-            walk_enumerate(enumerate({ v[0], v[1] }), c, r, "(initializer list)", nullptr);
+            VF_WALK_ENUM(enumerate({ v[0], v[1] }), "(initializer list)", nullptr);
             break;
         case 3:
-            walk_enumerate(enumerate({ v[0], v[1], v[2] }), c, r, "(initializer list)", nullptr);
+            VF_WALK_ENUM(enumerate({ v[0], v[1], v[2] }), "(initializer list)", nullptr);
             break;
         default:
-            walk_enumerate(enumerate({ v[0], v[1], v[2], v[3] }), c, r, "(initializer list)", nullptr);
+            VF_WALK_ENUM(enumerate({ v[0], v[1], v[2], v[3] }), "(initializer list)", nullptr);
         }
     }
     else
@@ -521,19 +607,19 @@ static void run_init_list(const Case& c, Result& r)
         switch (v.size())
         {
         case 0:
-            walk_reverse(reverse(std::initializer_list<int>{}), c, r, "(initializer list)", nullptr);
+            VF_WALK_REV(reverse(std::initializer_list<int>{}), "(initializer list)", nullptr);
             break;
         case 1:
-            walk_reverse(reverse({ v[0] }), c, r, "(initializer list)", nullptr);
+            VF_WALK_REV(reverse({ v[0] }), "(initializer list)", nullptr);
             break;
         case 2:
-            walk_reverse(reverse({ v[0], v[1] }), c, r, "(initializer list)", nullptr);
+            VF_WALK_REV(reverse({ v[0], v[1] }), "(initializer list)", nullptr);
             break;
         case 3:
-            walk_reverse(reverse({ v[0], v[1], v[2] }), c, r, "(initializer list)", nullptr);
+            VF_WALK_REV(reverse({ v[0], v[1], v[2] }), "(initializer list)", nullptr);
             break;
         default:
-            walk_reverse(reverse({ v[0], v[1], v[2], v[3] }), c, r, "(initializer list)", nullptr);
+            VF_WALK_REV(reverse({ v[0], v[1], v[2], v[3] }), "(initializer list)", nullptr);
         }
     }
 }
@@ -544,12 +630,14 @@ std::string check(const Case& c, vf::Ctx& ctx)
     if (!static_len_ok(c.kind, c.vals.size()))
         return "";
     ctx.tag(std::string("kind:") + kind_name(c.kind));
-    ctx.tag(c.cat == LVALUE ? "cat:lvalue" : c.cat == CONST_LVALUE ? "cat:const" : "cat:temporary");
+    ctx.tag(c.cat == LVALUE ? "cat:lvalue" : c.cat == CONST_LVALUE ? "cat:const" :
+            c.cat == RVALUE ? "cat:temporary" : "cat:const-temporary");
+    ctx.tag(c.style ? "style:post-increment-loop" : "style:range-for");
     ctx.tag(c.what == ENUMERATE ? "what:enumerate" : "what:reverse");
     ctx.tag("len:" + std::to_string(c.vals.size()));
     // non-trivial: anything the suite does not have - length != 3, node based or
     // temporary ranges, write-through (every lvalue case writes)
-    if (c.vals.size() != 3 || c.kind == LIST || c.kind == MAP || c.kind == DEQUE || c.cat == RVALUE ||
+    if (c.vals.size() != 3 || c.kind == LIST || c.kind == MAP || c.kind == DEQUE || c.cat >= RVALUE || c.style == 1 ||
         c.cat == LVALUE)
         ctx.mark_nontrivial();
     switch (c.kind)
